@@ -262,17 +262,23 @@ def fileNoMarkLines (f : File) : List Nat :=
 /-- the line number after `@` in a reason -/
 def reasonLine (r : String) : Nat := ((r.splitOn "@").getD 1 "0").toNat?.getD 0
 
-/-- map a C03 reason to the recorded defect class it falls in, if any (DESIGN.md §7) -/
-def classifyC03 (f : File) (g : Gran) (reached : List Nat) (reachedSingles : List Nat) (r : String) : Option String :=
+/-- map a C03 reason to the recorded defect class it falls in, if any (DESIGN.md §7).
+    D-C03-1 / D-C03-3 are structural (statement positions the pinned walker never visits).
+    D-C03-45 (scope keys of the pinned tree: comment after `case x:`, bare blocks, else branch of
+    a labelled if) is keyed by the concrete input: the same statement must be left unguarded by the
+    scope rule of the pinned tree (`pinned` = the reasons of the model's own answer for this file,
+    granularity and change set) — an unguarded statement the pinned rule does guard is new. -/
+def classifyC03 (f : File) (g : Gran) (reached : List Nat) (reachedSingles : List Nat) (pinned : List String)
+    (r : String) : Option String :=
   let l := reasonLine r
   if r.startsWith "C03:unguarded-statement" then
     if !reached.contains l then
       (if (fileNoMarkLines f).contains l then some "D-C03-1" else some "D-C03-3")
-    else if g == .scope || g == .patch then some "D-C03-45" else none
+    else if (g == .scope || g == .patch) && pinned.contains r then some "D-C03-45" else none
   else if r.startsWith "C03:single-line-body" then
     if !reachedSingles.contains l then some "D-C03-3" else none
   else if r.startsWith "C03:header-branch" then
-    if g == .scope || g == .patch then some "D-C03-45" else none
+    if (g == .scope || g == .patch) && pinned.contains r then some "D-C03-45" else none
   else none
 
 /-- judge:marks <gran> <ranges> | <implementation answer> -/
@@ -299,8 +305,9 @@ def judgeMarks (c : FileCtx) (reached reachedSingles : List Nat) (toks : List St
           let unshift (p : Nat × Nat) : Nat × Nat :=
             let ks := (List.range (j.multi.length + 1)).filter (fun k => 4 * k ≤ p.1 && cnt (p.1 - 4 * k) == k)
             (p.1 - 4 * ks.headD 0, p.2)
+          let modelAns := marks f g rs
           let modelSingles : Option (List (Nat × Nat)) :=
-            match marks f g rs with
+            match modelAns with
             | .ok m => if shiftSingles f.lineCodes.size m.multi m.singles == j.singles then some m.singles else none
             | .error _ => none
           let singles := modelSingles.getD (j.singles.map unshift)
@@ -309,8 +316,11 @@ def judgeMarks (c : FileCtx) (reached reachedSingles : List Nat) (toks : List St
           let legal := legalReasons c { j with singles := singles }
           if legal.any (fun r => r.endsWith "call-inside-comment") then "known D-C01-6" else
           let c03 := c03Reasons c g ch j.multi singles
-          let classes := c03.map (fun r => (r, classifyC03 f g reached reachedSingles r))
-          let bad := legal ++ c09Reasons c g ch j.multi singles ++ (classes.filter (·.2.isNone)).map (·.1)
+          let pinned := match modelAns with
+            | .ok m => if g == .scope || g == .patch then c03Reasons c g ch m.multi m.singles else []
+            | .error _ => []
+          let classes := c03.map (fun r => (r, classifyC03 f g reached reachedSingles pinned r))
+          let bad := legal ++ c09Reasons c g ch j.multi singles ++ ((classes.filter (·.2.isNone)).map (·.1)).take 3
           if toks.head? == some "debug" then " ".intercalate (legal ++ c09Reasons c g ch j.multi singles ++ c03) else
           if !bad.isEmpty then "bad " ++ " ".intercalate bad
           else
